@@ -445,7 +445,7 @@ func runC14(c *core.Ctx) error {
 	// catalogue/exhaustive ones and a coverage-driven selection (every shape, every option row, every
 	// shape x option-row pair first, then seeded random) are compiled
 	acceptedAll := len(toBuild)
-	toBuild = c14SelectBuilds(toBuild, c.Pick(70, 500), rng)
+	toBuild = c14SelectBuilds(toBuild, c.Pick(130, 500), rng)
 	c.Set("accepted_selected_for_build", len(toBuild))
 	c.Set("accepted_not_compiled", acceptedAll-len(toBuild))
 	kindCover = map[string]int{}
